@@ -238,6 +238,16 @@ static bool scheduleBurst(int B, bool nested, int bodyDelay, const std::string &
         });
         ex[cap.id].fetch_add(1);
       });
+    } else if (id & 1) {
+      // the closure as a named object that dies right after schedule() returned: the task has to own a copy
+      auto named = [cap, ex, dmg, bodyDelay]() {
+        if (!cap.intact())
+          dmg->fetch_add(1);
+        if (bodyDelay && (cap.id % 7) == 0)
+          sleepUs(bodyDelay);
+        ex[cap.id].fetch_add(1);
+      };
+      schedule(named);
     } else {
       schedule([cap, ex, dmg, bodyDelay]() {
         if (!cap.intact())
